@@ -459,9 +459,12 @@ func (g *GenOpts) EnsureDefaults() error {
 		return nil
 	}
 
+	verifYield("EnsureDefaults.beforeClone")
 	g.templates = templates.ShallowClone()
+	verifYield("EnsureDefaults.afterClone")
 
 	g.templates.LoadDefaults()
+	verifYield("EnsureDefaults.afterLoadDefaults")
 
 	if g.LanguageOpts == nil {
 		g.LanguageOpts = DefaultLanguageFunc()
@@ -644,10 +647,12 @@ func (g *GenOpts) write(t *TemplateOpts, data interface{}) error {
 	if t.SkipExists && fileExists(dir, fname) {
 		debugLog("skipping generation of %s because it already exists and skip_exist directive is set for %s",
 			filepath.Join(dir, fname), t.Name)
+		verifEvent("skip-exists", filepath.Join(dir, fname))
 		return nil
 	}
 
 	log.Printf("creating generated file %q in %q as %s", fname, dir, t.Name)
+	verifEvent("render", filepath.Join(dir, fname))
 	content, err := g.render(t, data)
 	if err != nil {
 		return fmt.Errorf("failed rendering template data for %s: %w", t.Name, err)
@@ -670,8 +675,10 @@ func (g *GenOpts) write(t *TemplateOpts, data interface{}) error {
 	var writeerr error
 
 	if !t.SkipFormat {
+		verifYield("write.beforeFormat")
 		formatted, err = g.LanguageOpts.FormatContent(filepath.Join(dir, fname), content)
 		if err != nil {
+			verifEvent("format-failed", filepath.Join(dir, fname))
 			log.Printf("source formatting failed on template-generated source (%q for %s). Check that your template produces valid code", filepath.Join(dir, fname), t.Name)
 			writeerr = os.WriteFile(filepath.Join(dir, fname), content, 0o644) // #nosec
 			if writeerr != nil {
@@ -686,6 +693,7 @@ func (g *GenOpts) write(t *TemplateOpts, data interface{}) error {
 	if writeerr != nil {
 		return fmt.Errorf("failed to write file %q in %q: %w", fname, dir, writeerr)
 	}
+	verifEvent("written", filepath.Join(dir, fname))
 	return err
 }
 
